@@ -94,6 +94,25 @@ func parserCases(c *core.Ctx, unit int, filter func(lib.Parser) bool, fn func(pc
 			}
 			fn(pcase{p: p, in: r.Bytes(ln), class: "random", shape: gen.Shape{"len": ln}})
 		})
+		if p.Kind == "rinfo" {
+			// a non-zero peer_size followed by that many 32-byte router hashes (what the field meant
+			// before it became "unused, always zero"), by one hash too few, or by none
+			c.Job("peers/"+p.ID(), n/4+1, func(i int, r *core.Rand) {
+				ri, sh := gen.RouterInfo(r)
+				ri.PeerSize = []byte{1, 2, 3, 8, 16, 255}[r.Pick(6)]
+				hashes := int(ri.PeerSize)
+				switch r.Pick(6) {
+				case 0:
+					hashes--
+				case 1:
+					hashes = 0
+				}
+				ri.PeerHashes = r.Bytes(32 * hashes)
+				sh["peer_size"] = int(ri.PeerSize)
+				sh["peer_hashes"] = hashes
+				fn(pcase{p: p, in: ri.Encode(), class: "peer-hashes", shape: sh})
+			})
+		}
 		if hasMapping(p.Kind) {
 			c.Job("junk/"+p.ID(), n/2+1, func(i int, r *core.Rand) {
 				in, sh := withMappingJunk(p.Kind, r)
